@@ -124,16 +124,20 @@ def fractions(chk, tier, seed, rnd):
         if c < 0.6:
             return rnd.randint(-2 ** 40, 2 ** 40)
         return rnd.choice([-1, 1]) * rnd.getrandbits(70)
-    n = 60 if tier == "quick" else 1200
+    n = 120 if tier == "quick" else 1200
     jobs = []
     for i in range(n):
         n1, d1, n2, d2 = big(), big() or 3, big(), big() or -7
         L = ["let a = fraction(%s, %s);" % (c14.lit(n1), c14.lit(d1)), "let b = fraction(%s, %s);" % (c14.lit(n2), c14.lit(d2)),
              "let s = a + b;", "let t = a - b;", "let m = a * b;", "let q = a / b;", "let c = cmp(a, b);"]
-        for nm in ("a", "b", "s", "t", "m", "q"):
+        k = rnd.choice([-3, -2, -1, -1, 0, 1, 2, 3])
+        L += ["let p = a ** %s;" % ("(%d)" % k if k < 0 else k), "let ng = -a;", "let ab = abs(a);", "let sg = sign(a);", "let e = a == b;",
+              "let e2 = a == fraction(%s, %s);" % (c14.lit(n1 * 3), c14.lit(d1 * 3)),
+              "let fl = floor(a);", "let ce = ceil(a);", "let tr = trunc(a);", "let md = a % b;", "let mq = floor(a / b);"]
+        for nm in ("a", "b", "s", "t", "m", "q", "p", "ng", "ab", "md"):
             L.append("let %s_n = %s::n;\nlet %s_d = %s::d;\nlet %s_g = gcd(%s::n, %s::d) == 1;" % (nm, nm, nm, nm, nm, nm, nm))
         src = "\n".join(L) + "\n"
-        jobs.append({"id": "fr%d" % i, "src": src, "observe": c14.NAMES.findall(src), "_v": (n1, d1, n2, d2), "limits": {"calls": 10 ** 7}})
+        jobs.append({"id": "fr%d" % i, "src": src, "observe": c14.NAMES.findall(src), "_v": (n1, d1, n2, d2), "_k": k, "limits": {"calls": 10 ** 7}})
     fl = [0.5, -0.75, 3.0, 0.1, 1e-3, 2.0 ** -40, 123456.789, -1e10] + [rnd.uniform(-100, 100) for _ in range(4 if tier == "quick" else 60)]
     fsrc = "".join("let f%d = fraction(%s);\nlet f%d_n = f%d::n;\nlet f%d_d = f%d::d;\nlet f%d_g = gcd(f%d::n, f%d::d) == 1;\n" % (i, "(%r)" % x if x < 0 else repr(x), i, i, i, i, i, i, i) for i, x in enumerate(fl))
     jobs.append({"id": "frfloat", "src": fsrc, "observe": c14.NAMES.findall(fsrc), "_fl": fl, "limits": {"calls": 10 ** 7}})
@@ -167,7 +171,7 @@ def fractions(chk, tier, seed, rnd):
         def num(name):
             d = v[name]
             return c14.limbs(d["v"]) if d.get("t") == "int" else None
-        parts = {nm: (num(nm + "_n"), num(nm + "_d"), v[nm + "_g"].get("v") is True) for nm in ("a", "b", "s", "t", "m", "q")}
+        parts = {nm: (num(nm + "_n"), num(nm + "_d"), v[nm + "_g"].get("v") is True) for nm in ("a", "b", "s", "t", "m", "q", "p", "ng", "ab", "md")}
         if parts["a"][0] is None or parts["b"][0] is None:
             chk.violation("fraction(%d, %d) did not construct: %s" % (n1, d1, v["a"]), {"kind": "fraction", "source": j["src"]})
             continue
@@ -189,6 +193,45 @@ def fractions(chk, tier, seed, rnd):
             events.append({"ev": "fnorm", "rd": rd, "gcd1": g1}); owner.append((j, "normal form of %s(%d/%d, %d/%d)" % (evn, n1, d1, n2, d2)))
         for nm in ("a", "b"):
             events.append({"ev": "fnorm", "rd": parts[nm][1], "gcd1": parts[nm][2]}); owner.append((j, "normal form of fraction %s" % nm))
+        # unary operations, powers, rounding, equality, modulo
+        k = j["_k"]
+        desc = "%d/%d" % (n1, d1)
+        if parts["p"][0] is None:
+            if not (n1 == 0 and k < 0):
+                chk.violation("(%s) ** %d is not a fraction: %s" % (desc, k, v["p"]), {"kind": "fraction", "source": j["src"]}, finding_key="fraction:fpow")
+        elif n1 == 0 and k < 0:
+            chk.violation("(0/%d) ** %d should be an error value, observed %s/%s" % (d1, k, v["p_n"].get("v"), v["p_d"].get("v")), {"kind": "fraction", "source": j["src"]}, finding_key="fraction:fpow0")
+        else:
+            events.append({"ev": "fpow", "n1": an, "d1": ad, "k": k, "rn": parts["p"][0], "rd": parts["p"][1]}); owner.append((j, "(%s) ** %d" % (desc, k)))
+            events.append({"ev": "fnorm", "rd": parts["p"][1], "gcd1": parts["p"][2]}); owner.append((j, "normal form of (%s) ** %d" % (desc, k)))
+        for nm, evn in (("ng", "fneg"), ("ab", "fabs")):
+            if parts[nm][0] is None:
+                chk.violation("%s(%s) is not a fraction: %s" % (evn, desc, v[nm]), {"kind": "fraction", "source": j["src"]})
+                continue
+            events.append({"ev": evn, "n1": an, "d1": ad, "rn": parts[nm][0], "rd": parts[nm][1]}); owner.append((j, "%s(%s)" % (evn, desc)))
+            events.append({"ev": "fnorm", "rd": parts[nm][1], "gcd1": parts[nm][2]}); owner.append((j, "normal form of %s(%s)" % (evn, desc)))
+        if v["sg"].get("t") == "int":
+            events.append({"ev": "fsign", "n1": an, "d1": ad, "r": int(v["sg"]["v"])}); owner.append((j, "sign(%s)" % desc))
+        else:
+            chk.violation("sign(%s) is not an int: %s" % (desc, v["sg"]), {"kind": "fraction", "source": j["src"]})
+        if v["e"].get("t") == "bool":
+            events.append({"ev": "feq", "n1": an, "d1": ad, "n2": bn, "d2": bd, "r": v["e"]["v"]}); owner.append((j, "%s == %d/%d" % (desc, n2, d2)))
+        if v["e2"].get("v") is not True:
+            chk.violation("%s == %d/%d (the same number, unreduced) is %s" % (desc, n1 * 3, d1 * 3, v["e2"]), {"kind": "fraction", "source": j["src"]}, finding_key="fraction:feq")
+        for nm, evn in (("fl", "ffloor"), ("ce", "fceil"), ("tr", "ftrunc")):
+            if v[nm].get("t") == "int":
+                events.append({"ev": evn, "n1": an, "d1": ad, "r": c14.limbs(v[nm]["v"])}); owner.append((j, "%s(%s)" % (evn, desc)))
+            else:
+                chk.violation("%s(%s) is not an int: %s" % (evn, desc, v[nm]), {"kind": "fraction", "source": j["src"]})
+        if n2 != 0:
+            if parts["md"][0] is None or v["mq"].get("t") != "int":
+                chk.violation("%s %% %d/%d is not a fraction: %s" % (desc, n2, d2, v["md"]), {"kind": "fraction", "source": j["src"]})
+            else:
+                events.append({"ev": "fmod", "n1": an, "d1": ad, "n2": bn, "d2": bd, "q": c14.limbs(v["mq"]["v"]), "rn": parts["md"][0], "rd": parts["md"][1]})
+                owner.append((j, "(%s) %% (%d/%d)" % (desc, n2, d2)))
+                events.append({"ev": "fnorm", "rd": parts["md"][1], "gcd1": parts["md"][2]}); owner.append((j, "normal form of (%s) %% (%d/%d)" % (desc, n2, d2)))
+                if parts["q"][0] is not None:
+                    events.append({"ev": "ffloor", "n1": parts["q"][0], "d1": parts["q"][1], "r": c14.limbs(v["mq"]["v"])}); owner.append((j, "floor((%s) / (%d/%d))" % (desc, n2, d2)))
         cv = v["c"]
         if cv.get("t") == "int":
             cs = (int(cv["v"]) > 0) - (int(cv["v"]) < 0)
